@@ -136,7 +136,31 @@ impl BuilderArea {
                                 acc.push_str(ch);
                                 acc
                             });
-                            if a != b || a != c || a != d || format!("{:?}", view) != format!("{:?}", a) {
+                            // the fallible folds: the whole text when `f` never fails, a proper prefix of chunks when it does
+                            let e: Result<String, ()> = view.try_fold_chunks(String::new(), |mut acc, ch| {
+                                acc.push_str(ch);
+                                Ok(acc)
+                            });
+                            let mut f = String::new();
+                            let fr: Result<(), ()> = view.try_for_each_chunk(|ch| {
+                                f.push_str(ch);
+                                Ok(())
+                            });
+                            let mut seen = 0usize;
+                            let stop: Result<(), usize> = view.try_for_each_chunk(|ch| {
+                                if seen >= 1 {
+                                    return Err(seen);
+                                }
+                                seen += 1;
+                                let _ = ch;
+                                Ok(())
+                            });
+                            let mut nchunks = 0usize;
+                            view.for_each_chunk(|_| nchunks += 1);
+                            let stop_ok = if nchunks >= 2 { stop == Err(1) } else { stop == Ok(()) };
+                            if a != b || a != c || a != d || e.as_deref() != Ok(a.as_str()) || fr.is_err() || f != a || !stop_ok
+                                || format!("{:?}", view) != format!("{:?}", a)
+                            {
                                 "inconsistent".to_string()
                             } else {
                                 hex(&a)
